@@ -1145,6 +1145,15 @@ def kar_templates(two_syllables=False, thorough=False):
             tw = pre + [[("X", 0)]] + post + follow
             un = [[("X", 0)]] + uni + follow
             words.append(("start:X+%s%s" % (sn, "+C" if follow else ""), tw, un))
+    # an independent vowel typed as hasanta + sign right after a syllable whose sign was typed first (নেই as ে ন ্ ি): the second sign has no
+    # consonant to wait for
+    for sn, pre, post, uni in signs:
+        if not pre:
+            continue
+        for k2 in list(CL.LEFT_KARS) + [0x09C1]:
+            tw = pre + [[("C", 0)]] + post + [list(HAS), [k2]]
+            un = [[("C", 0)]] + uni + [list(HAS), [k2]]
+            words.append(("start:C+%s+hasanta+U+%04X" % (sn, k2), tw, un))
     if two_syllables:
         def shift(keys, d):
             return [[(x[0], x[1] + d) if isinstance(x, tuple) else x for x in k] for k in keys]
